@@ -1,6 +1,7 @@
 (** C07: the constrained reader (Params.v) delivers exactly the declared projection (Project.v)
     of the full read, for every choice-free... (no: every) schema, every tree shaped like it, every
     parsed parameter record with depth >= 1 and a non-negative container bound, every entry path. *)
+From Coq Require Import Strings.String.
 From Coq Require Import ZArith List Bool Lia Strings.Byte.
 From YV Require Import Val.Model Val.Proofs Tree.Schema Tree.Merge Tree.PathExpr Tree.PathExprProofs Tree.Params Tree.Project.
 Import ListNotations.
@@ -571,4 +572,287 @@ Proof.
       unfold outcome, over. rewrite !fill_cont. reflexivity.
     + intros dflt v. destruct v; reflexivity.
     + intros rp. exists None. split; reflexivity.
+Qed.
+
+(** * combining parameters = composing the projections (intersection of the views) *)
+Definition rows_natural (V : view) : Prop :=
+  forall (f : dnode -> dnode) fp l, vw_rows V fp (map f l) = map f (vw_rows V fp l).
+
+Theorem project_compose V W : rows_natural V ->
+  forall s fp d, project_view (inter V W) fp s d = project_view V fp s (project_view W fp s d).
+Proof.
+  intros Hnat. induction s as [m ty il dflt|m kids IHk|m keys row IHr] using snode_ind'; intros fp d.
+  - destruct d; reflexivity.
+  - destruct d as [v|dc|rows]; try reflexivity.
+    simpl. f_equal. rewrite map_kids_compose. rewrite Forall_forall in IHk.
+    apply map_kids_ext. intros k dk Hin.
+    assert (Hk : In k kids).
+    { clear -Hin. revert dc Hin. induction kids as [|k0 ks IH]; intros [|d0 dc] Hin; simpl in *; try contradiction.
+      destruct Hin as [H|H]; [inversion H; auto|right; eapply IH; eauto]. }
+    destruct k as [mk ty il dflt|mk kk|mk keys row].
+    + destruct dk as [x|]; [|reflexivity]. simpl.
+      destruct (vw_leaf V (fp ++ [nm_name mk]) mk), (vw_leaf W (fp ++ [nm_name mk]) mk),
+        (vw_trim V), (vw_trim W); simpl; try reflexivity;
+        destruct (is_default dflt x) eqn:Ed; simpl; rewrite ?Ed; reflexivity.
+    + destruct dk as [sd|]; [|reflexivity]. simpl vw_node.
+      destruct (vw_node V (fp ++ [nm_name mk]) mk), (vw_node W (fp ++ [nm_name mk]) mk); try reflexivity.
+      simpl andb. cbv iota. f_equal. apply IHk; auto.
+    + destruct dk as [sd|]; [|reflexivity]. simpl vw_node.
+      destruct (vw_node V (fp ++ [nm_name mk]) mk), (vw_node W (fp ++ [nm_name mk]) mk); try reflexivity.
+      simpl andb. cbv iota. f_equal. apply IHk; auto.
+  - destruct d as [v|dc|rows]; try reflexivity.
+    simpl. f_equal. rewrite Hnat. rewrite map_map. apply map_ext. intros r. apply IHr.
+Qed.
+
+Lemma rows_natural_all_rows lf nd tr : rows_natural (mkView lf nd all_rows tr).
+Proof. intros f fp l. reflexivity. Qed.
+Lemma rows_natural_range ps st en : rows_natural (view_range ps st en).
+Proof. intros f fp l. simpl. destruct (selects_exactly ps fp); auto. apply window_map. Qed.
+Lemma rows_natural_inter V W : rows_natural V -> rows_natural W -> rows_natural (inter V W).
+Proof. intros HV HW f fp l. simpl. now rewrite HW, HV. Qed.
+Lemma rows_natural_content c : rows_natural (view_content c).
+Proof. destruct c; apply rows_natural_all_rows. Qed.
+
+(** * BuildConstraints delivers valid parameter records or an error *)
+Lemma bind_ok {A C} (r : pres A) (f : A -> pres C) c : bind r f = POk c -> exists a, r = POk a /\ f a = POk c.
+Proof. destruct r; simpl; [eauto|discriminate]. Qed.
+
+Theorem build_valid q P : build_constraints q = POk P -> valid P.
+Proof.
+  unfold build_constraints. destruct q as [|kv q']; [intros H; inversion H; exact I|].
+  set (q := kv :: q'). intros H.
+  apply bind_ok in H as [depth [Hd H]].
+  apply bind_ok in H as [range [_ H]].
+  apply bind_ok in H as [fields [_ H]].
+  apply bind_ok in H as [xfields [_ H]].
+  apply bind_ok in H as [maxn [Hm H]].
+  apply bind_ok in H as [cont [_ H]].
+  apply bind_ok in H as [trim [_ H]].
+  inversion H; subst P. split; simpl.
+  - destruct (lookup (B "depth") q) as [v|]; [|inversion Hd; lia].
+    destruct (atoi v) as [n|]; [|discriminate].
+    destruct (n =? 0) eqn:E0; [discriminate|]. destruct (n <? 0) eqn:E1; [discriminate|].
+    inversion Hd; subst. lia.
+  - destruct (lookup (B "fc.max-node-count") q) as [v|]; [|inversion Hm; lia].
+    destruct (atoi v) as [n|]; [|discriminate].
+    destruct (n <? 0) eqn:E1; [discriminate|]. inversion Hm; subst. lia.
+Qed.
+
+Theorem read_query_is_projection q P kids data :
+  build_constraints q = POk P ->
+  forallb wf_schema kids = true -> shaped (SCont root_meta kids) (DCont data) = true ->
+  read_query kids data q = spec_read P kids data.
+Proof.
+  intros Hb Hwf Hsh. unfold read_query. rewrite Hb. simpl.
+  apply read_is_projection; auto. eapply build_valid; eauto.
+Qed.
+
+(** * an invalid parameter value is an error *)
+Definition is_err {A} (r : pres A) : Prop := exists e, r = PErr e.
+Lemma bind_err {A C} (r : pres A) (f : A -> pres C) : is_err r -> is_err (bind r f).
+Proof. intros [e ->]. now exists e. Qed.
+Lemma bind_err_k {A C} (r : pres A) (f : A -> pres C) : (forall a, is_err (f a)) -> is_err (bind r f).
+Proof. intros H. destruct r; simpl; [apply H|now eexists]. Qed.
+
+Definition bad_depth (v : list byte) : Prop := match atoi v with Some n => n < 1 | None => True end.
+Definition bad_max_node (v : list byte) : Prop := match atoi v with Some n => n < 0 | None => True end.
+Definition bad_content (v : list byte) : Prop := v <> B "config" /\ v <> B "nonconfig" /\ v <> B "all".
+Definition bad_with_defaults (v : list byte) : Prop := v <> B "trim" /\ v <> B "report-all".
+(** fc.range: no '!', or rows that are not  start [ '-' [ end ] ]  with decimal numbers *)
+Definition bad_range (v : list byte) : Prop :=
+  match cut_at x21 v [] with
+  | None => True
+  | Some (_, rows) =>
+      match cut_at x2d rows [] with
+      | None => atoi rows = None
+      | Some (st, en) => atoi st = None \/ (en <> [] /\ atoi en = None)
+      end
+  end.
+
+Lemma bytes_eqb_eq a b : bytes_eqb a b = true <-> a = b.
+Proof. unfold bytes_eqb. rewrite Z.eqb_eq. apply lex_cmp_eq. Qed.
+Lemma bytes_eqb_neq a b : a <> b -> bytes_eqb a b = false.
+Proof. intros H. destruct (bytes_eqb a b) eqn:E; auto. apply bytes_eqb_eq in E. contradiction. Qed.
+
+Lemma split_on_cut sep : forall s cur,
+  split_on sep s cur = match cut_at sep s cur with
+                       | None => [rev cur ++ s]
+                       | Some (a, b) => a :: split_on sep b []
+                       end.
+Proof.
+  induction s as [|c s IH]; intros cur; simpl.
+  - now rewrite app_nil_r.
+  - destruct (Byte.eqb c sep); auto. rewrite IH. simpl.
+    destruct (cut_at sep s (c :: cur)) as [[a b]|]; auto. now rewrite <- app_assoc.
+Qed.
+
+Lemma split_on_nonempty sep : forall s cur, split_on sep s cur <> [].
+Proof. induction s as [|c s IH]; intros cur; simpl; [discriminate|]. destruct (Byte.eqb c sep); [discriminate|apply IH]. Qed.
+
+Theorem bad_param_is_error : forall q kids data v,
+  (lookup (B "depth") q = Some v /\ bad_depth v) \/
+  (lookup (B "fc.max-node-count") q = Some v /\ bad_max_node v) \/
+  (lookup (B "content") q = Some v /\ bad_content v) \/
+  (lookup (B "with-defaults") q = Some v /\ bad_with_defaults v) \/
+  (lookup (B "fc.range") q = Some v /\ bad_range v) ->
+  is_err (read_query kids data q).
+Proof.
+  intros q kids data v H. unfold read_query. apply bind_err.
+  unfold build_constraints. destruct q as [|kv q']; [destruct H as [[H _]|[[H _]|[[H _]|[[H _]|[H _]]]]]; discriminate|].
+  set (qq := kv :: q') in *.
+  destruct H as [[Hl Hb]|[[Hl Hb]|[[Hl Hb]|[[Hl Hb]|[Hl Hb]]]]].
+  - apply bind_err. rewrite Hl. unfold bad_depth in Hb. destruct (atoi v) as [n|]; [|now eexists].
+    destruct (n =? 0) eqn:E0; [now eexists|]. destruct (n <? 0) eqn:E1; [now eexists|]. lia.
+  - apply bind_err_k; intros depth. apply bind_err_k; intros range. apply bind_err_k; intros fields.
+    apply bind_err_k; intros xfields. apply bind_err. rewrite Hl. unfold bad_max_node in Hb.
+    destruct (atoi v) as [n|]; [|now eexists]. destruct (n <? 0) eqn:E1; [now eexists|]. lia.
+  - apply bind_err_k; intros depth. apply bind_err_k; intros range. apply bind_err_k; intros fields.
+    apply bind_err_k; intros xfields. apply bind_err_k; intros maxn. apply bind_err.
+    unfold opt_param. rewrite Hl. apply bind_err. destruct Hb as [H1 [H2 H3]].
+    unfold new_content. rewrite !bytes_eqb_neq by assumption. now eexists.
+  - apply bind_err_k; intros depth. apply bind_err_k; intros range. apply bind_err_k; intros fields.
+    apply bind_err_k; intros xfields. apply bind_err_k; intros maxn. apply bind_err_k; intros cont. apply bind_err.
+    unfold opt_param. rewrite Hl. apply bind_err. destruct Hb as [H1 H2].
+    unfold new_with_defaults. rewrite (bytes_eqb_neq v (B "trim")) by assumption.
+    rewrite (bytes_eqb_neq v (B "report-all")) by assumption.
+    destruct (bytes_eqb v (B "explicit")); [now eexists|].
+    destruct (bytes_eqb v (B "report-all-tagged")); now eexists.
+  - apply bind_err_k; intros depth. apply bind_err.
+    unfold opt_param. rewrite Hl. apply bind_err. unfold new_list_range, bad_range in *.
+    destruct (cut_at x21 v []) as [[sel rows]|]; [|now eexists].
+    apply bind_err_k; intros ps. rewrite split_on_cut.
+    destruct (cut_at x2d rows []) as [[st en]|].
+    + rewrite split_on_cut. simpl rev. simpl app.
+      destruct (cut_at x2d en []) as [[en1 en2]|] eqn:Ec.
+      * (* a third part: error whatever it is *)
+        destruct (split_on x2d en2 []) eqn:Es; [|now eexists].
+        exfalso. eapply split_on_nonempty; eauto.
+      * destruct Hb as [Hb|[Hne Hb]].
+        -- rewrite Hb. now eexists.
+        -- destruct (atoi st); [|now eexists]. destruct en; [congruence|]. rewrite Hb. now eexists.
+    + simpl rev. simpl app. rewrite Hb. now eexists.
+Qed.
+
+(** * views that agree pointwise project alike; per-parameter forms *)
+Definition view_equiv (V W : view) : Prop :=
+  (forall fp m, vw_leaf V fp m = vw_leaf W fp m) /\
+  (forall fp m, vw_node V fp m = vw_node W fp m) /\
+  (forall fp rows, vw_rows V fp rows = vw_rows W fp rows) /\
+  vw_trim V = vw_trim W.
+
+Lemma project_view_ext V W : view_equiv V W ->
+  forall s fp d, project_view V fp s d = project_view W fp s d.
+Proof.
+  intros [Hl [Hn [Hr Ht]]]. induction s as [m ty il dflt|m kids IHk|m keys row IHr] using snode_ind'; intros fp d.
+  - destruct d; reflexivity.
+  - destruct d as [v|dc|rows]; try reflexivity. simpl. f_equal. rewrite Forall_forall in IHk.
+    apply map_kids_ext. intros k dk Hin.
+    assert (Hk : In k kids).
+    { clear -Hin. revert dc Hin. induction kids as [|k0 ks IH]; intros [|d0 dc] Hin; simpl in *; try contradiction.
+      destruct Hin as [H|H]; [inversion H; auto|right; eapply IH; eauto]. }
+    destruct k as [mk ty il dflt|mk kk|mk keys row].
+    + rewrite Hl, Ht. reflexivity.
+    + destruct dk as [sd|]; [|reflexivity]. rewrite Hn. destruct (vw_node W (fp ++ [nm_name mk]) mk); auto.
+      f_equal. apply IHk; auto.
+    + destruct dk as [sd|]; [|reflexivity]. rewrite Hn. destruct (vw_node W (fp ++ [nm_name mk]) mk); auto.
+      f_equal. apply IHk; auto.
+  - destruct d as [v|dc|rows]; try reflexivity. simpl. f_equal. rewrite Hr. apply map_ext. intros; apply IHr.
+Qed.
+Lemma project_ext V W kids c : view_equiv V W -> project V kids c = project W kids c.
+Proof. intros H. unfold project. now rewrite (project_view_ext V W H). Qed.
+
+(** the parameter record BuildConstraints makes of a query with one parameter: the others at their
+    defaults (depth 64, at most 10000 containers) *)
+Definition defaults : params := mkParams 64 None None None 10000 None false.
+Definition bounded (n : Z) (t : content) : pres content := if count_c t >? n then PErr PConflict else POk t.
+
+Section PerParameter.
+  Variables (kids : list snode) (data : content).
+  Hypothesis Hwf : forallb wf_schema kids = true.
+  Hypothesis Hsh : shaped (SCont root_meta kids) (DCont data) = true.
+
+  Let read p := read_content (Some p) kids data.
+  Let full := full_read kids data.
+
+  Lemma per_param p V : valid_params p -> view_equiv (params_view p) V ->
+    read p = bounded (p_max_node p) (project V kids full).
+  Proof.
+    intros Hv He. unfold read. rewrite read_is_projection by auto. unfold spec_read, bounded.
+    now rewrite (project_ext _ _ kids _ He).
+  Qed.
+
+  (** depth=n: nodes at most n levels below the target *)
+  Theorem read_depth n : 1 <= n ->
+    read (mkParams n None None None 10000 None false) = bounded 10000 (project (view_depth n) kids full).
+  Proof.
+    intros Hn. apply (per_param (mkParams n None None None 10000 None false)); [split; simpl; lia|].
+    repeat split; intros; simpl; unfold keep_all; now rewrite ?andb_true_r.
+  Qed.
+  (** content=c (within the default depth) *)
+  Theorem read_content_param c :
+    read (mkParams 64 None None None 10000 (Some c) false)
+    = bounded 10000 (project (inter (view_depth 64) (view_content c)) kids full).
+  Proof.
+    apply (per_param (mkParams 64 None None None 10000 (Some c) false)); [split; simpl; lia|].
+    repeat split; intros; simpl; unfold keep_all; rewrite ?andb_true_r, ?andb_true_l; try reflexivity.
+    destruct c; reflexivity.
+  Qed.
+  (** fields=ps *)
+  Theorem read_fields ps :
+    read (mkParams 64 None (Some ps) None 10000 None false)
+    = bounded 10000 (project (inter (view_depth 64) (view_fields ps)) kids full).
+  Proof.
+    apply (per_param (mkParams 64 None (Some ps) None 10000 None false)); [split; simpl; lia|].
+    repeat split; intros; simpl; unfold keep_all; now rewrite ?andb_true_r, ?andb_true_l.
+  Qed.
+  (** fc.xfields=ps *)
+  Theorem read_xfields ps :
+    read (mkParams 64 None None (Some ps) 10000 None false)
+    = bounded 10000 (project (inter (view_depth 64) (view_xfields ps)) kids full).
+  Proof.
+    apply (per_param (mkParams 64 None None (Some ps) 10000 None false)); [split; simpl; lia|].
+    repeat split; intros; simpl; unfold keep_all; now rewrite ?andb_true_r, ?andb_true_l.
+  Qed.
+  (** with-defaults=trim *)
+  Theorem read_trim :
+    read (mkParams 64 None None None 10000 None true)
+    = bounded 10000 (project (inter (view_depth 64) view_trim) kids full).
+  Proof.
+    apply (per_param (mkParams 64 None None None 10000 None true)); [split; simpl; lia|].
+    repeat split; intros; simpl; unfold keep_all; now rewrite ?andb_true_r, ?andb_true_l.
+  Qed.
+  (** fc.range=ps!st-en *)
+  Theorem read_range ps st en :
+    read (mkParams 64 (Some (ps, st, en)) None None 10000 None false)
+    = bounded 10000 (project (inter (view_depth 64) (view_range ps st en)) kids full).
+  Proof.
+    apply (per_param (mkParams 64 (Some (ps, st, en)) None None 10000 None false)); [split; simpl; lia|].
+    repeat split; intros; simpl; unfold keep_all; now rewrite ?andb_true_r, ?andb_true_l.
+  Qed.
+  (** fc.max-node-count=n *)
+  Theorem read_max_node n : 0 <= n ->
+    read (mkParams 64 None None None n None false) = bounded n (project (view_depth 64) kids full).
+  Proof.
+    intros Hn. apply (per_param (mkParams 64 None None None n None false)); [split; simpl; lia|].
+    repeat split; intros; simpl; unfold keep_all; now rewrite ?andb_true_r.
+  Qed.
+End PerParameter.
+
+(** the view of a parameter record is the intersection of the views of its parameters, and
+    projecting by it is projecting by each of them in turn *)
+Theorem params_view_is_composition p s fp d :
+  project_view (params_view p) fp s d =
+  project_view (view_depth (p_depth p)) fp s
+ (project_view (opt_view (p_range p) (fun r => let '(ps, st, en) := r in view_range ps st en)) fp s
+ (project_view (opt_view (p_fields p) view_fields) fp s
+ (project_view (opt_view (p_xfields p) view_xfields) fp s
+ (project_view (opt_view (p_content p) view_content) fp s
+ (project_view (if p_trim p then view_trim else view_all) fp s d))))).
+Proof.
+  unfold params_view.
+  rewrite project_compose by apply rows_natural_all_rows. f_equal.
+  rewrite project_compose by (destruct (p_range p) as [[[ps st] en]|]; [apply rows_natural_range|apply rows_natural_all_rows]). f_equal.
+  rewrite project_compose by (destruct (p_fields p); apply rows_natural_all_rows). f_equal.
+  rewrite project_compose by (destruct (p_xfields p); apply rows_natural_all_rows). f_equal.
+  rewrite project_compose by (destruct (p_content p) as [c|]; [apply rows_natural_content|apply rows_natural_all_rows]). reflexivity.
 Qed.
